@@ -53,6 +53,21 @@ Quantile(xs, r) ==
   IN  IF fr = 0 THEN RInt(xs[lo + 1])
       ELSE <<xs[lo + 1] * Bn + fr * (xs[lo + 2] - xs[lo + 1]), Bn>>
 
+RECURSIVE Gcd(_, _)
+Gcd(a, b) == IF b = 0 THEN a ELSE Gcd(b, a % b)
+AbsI(x) == IF x < 0 THEN -x ELSE x
+RNorm(x) == LET g == Gcd(AbsI(x[1]), x[2]) IN IF g = 0 THEN x ELSE <<x[1] \div g, x[2] \div g>>
+RAdd(x, y) == RNorm(<<x[1] * y[2] + y[1] * x[2], x[2] * y[2]>>)
+RDiv(n, d) == IF d < 0 THEN <<-n, -d>> ELSE <<n, d>>          \* n / d for integers, d # 0
+
+(* Aggregates with a KNOWN part.  A group's bootstrap error draw is the difference of two ratios whose numerators
+   and denominators both contain the known sums of the group's reporting and unexpected units:
+       Kyz = sum w*y*z (reporting) + sum margin (unexpected),   Kz = sum w*z (reporting) + sum two-party votes (unexpected)
+       draw_b = (Kyz + e1_b) / (Kz + e3_b) - (Kyz + e2_b) / (Kz + e4_b),   pred = (Kyz + yz) / (Kz + z)           *)
+KnownDraw(Kyz, Kz, e1, e2, e3, e4) == RNorm(RSub(RDiv(Kyz + e1, Kz + e3), RDiv(Kyz + e2, Kz + e4)))
+KnownPred(Kyz, Kz, yz, z) == RDiv(Kyz + yz, Kz + z)
+Thousandth == <<1, 1000>>
+
 UnitLower(p, xs, ru) == RSub(RInt(p), Quantile(xs, ru))
 UnitUpper(p, xs, rl) == RSub(RInt(p), Quantile(xs, rl))
 AggLower(p, xs, ru)  == RMin(UnitLower(p, xs, ru), RInt(p - 1))     \* straddle: one thousandth
